@@ -679,3 +679,18 @@ Proof.
     split; [reflexivity|]. intros i j v H. destruct i; discriminate.
   - apply window_slots_raw. exact HI.
 Qed.
+
+(* the fill value is a parameter like any other: for EVERY fill v (NaN, 0, -0.0, 1, negative, huge ...)
+   the slots of the covered range that hold a sample read their sample, all others read v *)
+Lemma window_ts_fill : forall p al b a s e (v : cell), Inv b a ->
+  window_ts p al b s e (Some v)
+  = RList (map (fun j => match s_map a j with Some x => Some x | None => v end)
+               (spec_cover (cap b) a (norm_slot p al s) (norm_slot p al e))).
+Proof. intros. rewrite (window_ts_inv p al b a s e v H). reflexivity. Qed.
+
+Lemma window_idx_fill : forall b a s e (v : cell) o, Inv b a -> spec_oldest (cap b) a = Some o ->
+  window_idx b s e (Some v)
+  = RList (map (fun j => match s_map a j with Some x => Some x | None => v end)
+               (spec_cover (cap b) a (o + slice_adj (spec_covered (cap b) a) s 0)
+                                     (o + slice_adj (spec_covered (cap b) a) e (spec_covered (cap b) a)))).
+Proof. intros b a s e v o H Ho. rewrite (window_idx_inv b a s e v H). unfold spec_window_idx. rewrite Ho. reflexivity. Qed.
